@@ -6,6 +6,7 @@ pub mod c07;
 pub mod c10;
 pub mod c13;
 pub mod c14;
+pub mod c15;
 pub mod c16;
 pub mod c17;
 pub mod c18;
@@ -55,6 +56,7 @@ pub fn run(id: &str, tier: Tier) -> Option<Report> {
         }
         "C13" => c13::run(tier),
         "C14" => c14::run(tier),
+        "C15" => c15::run(tier),
         "C16" => c16::run(tier),
         "C17" => c17::run(tier),
         "C18" => c18::run(tier),
@@ -90,6 +92,7 @@ pub fn replay(id: &str, v: &serde_json::Value) -> i32 {
         "C10" => c10::replay(v),
         "C13" => c13::replay(v),
         "C14" => c14::replay(v),
+        "C15" => c15::replay(v),
         "C16" => c16::replay(v),
         "C17" => c17::replay(v),
         "C18" => c18::replay(v),
